@@ -77,7 +77,7 @@ fn alphabet(n: usize) -> Vec<Dev> {
 pub fn programs(tier: Tier) -> ProgramSet {
     let plan: Vec<(usize, usize)> = match tier {
         Tier::Quick => vec![(1, 2), (2, 2), (3, 1)],
-        Tier::Thorough => vec![(1, 3), (2, 3), (3, 2), (4, 2)],
+        Tier::Thorough => vec![(1, 3), (2, 3), (3, 3), (4, 2)],
     };
     let mut out = Vec::new();
     let mut seen = std::collections::HashSet::new();
